@@ -280,6 +280,48 @@ func (p c15) Run(w *mon.Worker, idx int) mon.Result {
 		return res
 
 	case "stable":
+		if r.IntN(3) == 0 {
+			// scalar elements under a key function that is not injective on them: elements with equal keys keep
+			// their input order whatever their own values are
+			n := 3 + r.IntN(10)
+			vals := make([]int, n)
+			var items []string
+			for i := range vals {
+				vals[i] = r.IntN(40)
+				items = append(items, fmt.Sprint(vals[i]))
+			}
+			type kf struct {
+				expr string
+				key  func(int) int
+			}
+			f := []kf{
+				{". % 3", func(v int) int { return v % 3 }},
+				{". > 20", func(v int) int { return b2i(v > 20) }},
+				{"tostring | length", func(v int) int { return len(fmt.Sprint(v)) }},
+				{". - (. % 10)", func(v int) int { return v - v%10 }},
+				{"(. % 2) + 0.5", func(v int) int { return v % 2 }},
+			}[r.IntN(5)]
+			doc := "[" + strings.Join(items, ", ") + "]\n"
+			ex := "sort_by(" + f.expr + ")"
+			res.Case = map[string]any{"doc": doc, "expr": ex}
+			res.Sig = fmt.Sprintf("stable-scalars|%x", hashStr(doc+ex))
+			res.Nontrivial = true
+			res.Tags = append(res.Tags, "stable:scalars")
+			want := append([]int(nil), vals...)
+			sort.SliceStable(want, func(i, j int) bool { return f.key(want[i]) < f.key(want[j]) })
+			got, err := c15Eval(ex, doc)
+			res.Evals++
+			if err != nil || len(got) != 1 || got[0].K != ref.Seq || len(got[0].A) != n {
+				return fail("`%s` failed on %s: %v %v", ex, doc, err, got)
+			}
+			for i, g := range got[0].A {
+				if g.K != ref.Int || g.I.Int64() != int64(want[i]) {
+					return fail("`%s` on %s gives %s; ordered by the key alone with equal keys in input order it is %v", ex, strings.TrimSpace(doc), got[0], want)
+				}
+			}
+			res.Verdict, res.Detail = mon.Held, fmt.Sprintf("%d scalars, stable under %s", n, f.expr)
+			return res
+		}
 		// short and long inputs (library sorts switch algorithm with the length), many equal keys
 		n := 2 + r.IntN(9)
 		if r.IntN(3) == 0 {
@@ -593,4 +635,11 @@ func rankOf(v *ref.V) int {
 		return 3
 	}
 	return -1
+}
+
+func b2i(b bool) int {
+	if b {
+		return 1
+	}
+	return 0
 }
